@@ -166,7 +166,14 @@ def run_check(pid, tier, seed, workers=None, only=None, extra_env=None, quiet=Fa
 
         floor_check("evaluations", ev, floors.get("evaluations", 1))
         floor_check("distinct non-trivial cases", len(sigs), floors.get("distinct_nontrivial", 2))
+        unavailable = sorted(tables.get("hook_unavailable") or {})
+        if unavailable:
+            notes["hooks_unavailable"] = unavailable
+            if not quiet:
+                print(f"NOTE property={pid} internal hooks skipped, the library no longer has what they attach to: {', '.join(unavailable)[:400]} (black-box monitors unaffected)")
         for path, floor in floors.get("tables", {}).items():
+            if unavailable and (path.split("/")[0] in ("hook", "hunt", "cache_size", "m6") or ("routine" in unavailable and path.startswith(("routine", "array/expand-or-unfuse-target")))):
+                continue
             cur = tables
             for part in path.split("/"):
                 cur = cur.get(part, {}) if isinstance(cur, dict) else 0
@@ -177,9 +184,17 @@ def run_check(pid, tier, seed, workers=None, only=None, extra_env=None, quiet=Fa
             notes["budget_cut_by_wall_clock"] = {"streams": cut, "floors_met_at_10_percent_only": short}
             if not quiet:
                 print(f"NOTE property={pid} the wall-clock cap cut the case budget ({', '.join(cut)[:300]}); reach floors counted as met at >= 10%: {'; '.join(short)[:600]}")
+        gone = []
         for a in meta.get("anchors", []):
-            if anchors.get(a, [0, 0])[0] == 0:
+            hit, total = anchors.get(a, [0, 0])
+            if hit == 0 and total == 0 and reports:
+                gone.append(a)  # not in the source any more (renamed / inlined): reach unmeasurable
+            elif hit == 0:
                 reasons.append(f"anchored function {a} never entered")
+        if gone:
+            notes["anchors_not_in_source"] = gone
+            if not quiet:
+                print(f"NOTE property={pid} anchored functions not found in the source (renamed or removed), reach not measured: {', '.join(gone)[:400]}")
     wall_s = time.time() - t0
     replay_paths = []
     if real and only is None:
